@@ -442,8 +442,15 @@ impl Prop for C10 {
             Tier::Thorough if rng.chance(1, 20) => 1000,
             Tier::Thorough => 8 + rng.below(120),
         };
-        // one-byte reads are slow: keep those streams at the minimum length
-        let factor = if slow { 8 } else { factor };
+        // one-byte reads are slow: keep those streams at the minimum length; marathons only
+        // where a read moves at least a kilobyte
+        let factor = if slow {
+            8
+        } else if chunk.map_or(false, |c| c < 1024) || matches!(sizes, ReadSizes::Random(40)) {
+            factor.min(128)
+        } else {
+            factor
+        };
         StreamCase {
             kind,
             lit: rng.below(5) as u8,
@@ -490,6 +497,10 @@ impl Prop for C10 {
             let srcref = &mut src;
             drive(&cfg, &ctor, srcref, 0, &mut |_k, _f| {
                 items += 1;
+                if items % 8192 == 0 {
+                    // marathons: the watchdog measures progress, not the whole stream
+                    crate::framework::heartbeat();
+                }
                 let p = alloc::peak() - baseline;
                 if p > worst {
                     worst = p;
